@@ -108,3 +108,12 @@ check(
     "differential testing against a reference evaluator: exhaustive boundary grid + grammar-based property testing",
     "DESIGN.md section 3 C11 and Appendix A",
 )
+
+check(
+    "C12",
+    "exploration",
+    "An exhaustive grid (5 match-types x 4 collations x negate x 14 needles against 7 cards = 560 queries, every triple hit) plus Hypothesis-generated address books and RFC 6352 10.5 filters (anyof/allof, presence, is-not-defined, several text-matches, param-filters, nresults limits), compared with a reference evaluator over independently parsed cards; address-data compared with GET.",
+    "Trusted: xv/filterref.py card evaluator (a prop-filter matches if some instance satisfies all its children); i;unicode-casemap verdicts that depend on non-ASCII case are unasserted and counted.",
+    "differential testing against a reference evaluator: exhaustive finite grid + grammar-based property testing",
+    "DESIGN.md section 3 C12",
+)
